@@ -21,6 +21,8 @@ const BIN_RELEASE: &str = "/verif/build/repo-target/release/resolved";
 /// which build of the server the streams start (the deep-message stream needs the release profile, the
 /// one the stack-depth clause of C03 is about)
 static USE_RELEASE: std::sync::atomic::AtomicBool = std::sync::atomic::AtomicBool::new(false);
+/// when non-zero the server is started under `ulimit -n <value>` (descriptor exhaustion scenarios)
+static NOFILE_LIMIT: std::sync::atomic::AtomicUsize = std::sync::atomic::AtomicUsize::new(0);
 
 /// ports private to this harness process (several shards run concurrently): a block of 16 ports
 /// derived from the pid, walked round-robin, each checked to be free for UDP and TCP
@@ -59,7 +61,15 @@ impl Server {
         let port = free_port();
         let mport = free_port();
         let addr: SocketAddr = format!("127.0.0.1:{port}").parse().unwrap();
-        let mut cmd = Command::new(if USE_RELEASE.load(std::sync::atomic::Ordering::SeqCst) { BIN_RELEASE } else { BIN });
+        let bin = if USE_RELEASE.load(std::sync::atomic::Ordering::SeqCst) { BIN_RELEASE } else { BIN };
+        let nofile = NOFILE_LIMIT.load(std::sync::atomic::Ordering::SeqCst);
+        let mut cmd = if nofile > 0 {
+            let mut c = Command::new("sh");
+            c.arg("-c").arg(format!("ulimit -n {nofile} && exec {bin} \"$@\"")).arg("sh");
+            c
+        } else {
+            Command::new(bin)
+        };
         cmd.arg("-i").arg(addr.to_string()).arg("--metrics-address").arg(format!("127.0.0.1:{mport}"));
         cmd.args(args);
         cmd.env("RUST_LOG", "info").env("RUST_LOG_FORMAT", "no-ansi,no-time");
@@ -409,8 +419,58 @@ fn run_bigrec(r: &mut Rng, out: &mut Out) -> usize {
     done + 1
 }
 
+/// descriptor exhaustion: with a low limit on open files, more clients than that connect over TCP and
+/// stall; `accept` fails for a while.  Once they are gone the server must accept TCP clients again.
+fn run_fd_exhaustion(out: &mut Out) -> usize {
+    let dir = scratch("serve-fd");
+    std::fs::write(dir.join("z.zone"), "$ORIGIN fd.test.\n@ IN SOA ns admin 1 2 3 4 60\nwww 300 IN A 10.0.0.7\n").unwrap();
+    let args: Vec<String> = vec!["--authoritative-only".into(), "-z".into(), dir.join("z.zone").to_string_lossy().into_owned()];
+    NOFILE_LIMIT.store(64, std::sync::atomic::Ordering::SeqCst);
+    let server = Server::start(&args);
+    NOFILE_LIMIT.store(0, std::sync::atomic::Ordering::SeqCst);
+    let Some(server) = server else {
+        out.case(&["server.start", "fd"], "failed");
+        return 1;
+    };
+    // 100 clients that send three octets and then just sit there
+    let mut held = Vec::new();
+    for _ in 0..100 {
+        if let Ok(mut c) = TcpStream::connect_timeout(&server.addr, Duration::from_millis(300)) {
+            let _ = c.write_all(&[0, 30, 0x12]);
+            held.push(c);
+        }
+    }
+    std::thread::sleep(Duration::from_millis(300));
+    drop(held);
+    std::thread::sleep(Duration::from_millis(500));
+    // now a well-formed TCP query must be answered (retry for up to 10 s)
+    let q = probe_query(0x4242);
+    let mut wire = (q.len() as u16).to_be_bytes().to_vec();
+    wire.extend_from_slice(&q);
+    let start = Instant::now();
+    let mut answered = false;
+    while start.elapsed() < Duration::from_secs(10) {
+        if let Some(b) = server.tcp_once(&wire, false) {
+            if b.len() > 4 && b[2] == 0x42 && b[3] == 0x42 {
+                answered = true;
+                break;
+            }
+        }
+        std::thread::sleep(Duration::from_millis(300));
+    }
+    let udp = server.udp_once(&probe_query(9), Duration::from_secs(2)).is_some();
+    out.case(
+        &["server.fd-exhaustion", "64"],
+        &format!("tcp-after={} udp={}", if answered { "answered" } else { "refused" }, if udp { "answered" } else { "silent" }),
+    );
+    drop(server);
+    let _ = std::fs::remove_dir_all(&dir);
+    1
+}
+
 pub fn run_serve(r: &mut Rng, n: usize, out: &mut Out) {
     let mut done = run_bigrec(r, out);
+    done += run_fd_exhaustion(out);
     let mut swept = false;
     while done < n {
         let dir = scratch("serve");
@@ -498,6 +558,31 @@ pub fn run_serve(r: &mut Rng, n: usize, out: &mut Out) {
                     drop(stalled);
                     out.case(&["server.tcp", "auth", &zones, &c::hex(&q)], &resp.map_or("conn-failed".into(), |b| c::hex(&b)));
                 }
+                2 if r.chance(1, 3) => {
+                    // the prefix announces LESS than is sent: the message is the announced prefix, whatever
+                    // else is queued on the connection.  Also with a prefix above 4096 (a padded query)
+                    let (sent, announce) = if r.chance(1, 2) && q.len() > 14 {
+                        (q.clone(), r.range(2, q.len() - 1))
+                    } else {
+                        // a valid query padded with an additional TXT record of 6000 octets; announce 5000
+                        let mut big = q.clone();
+                        if big.len() >= 12 {
+                            let ar = u16::from_be_bytes([big[10], big[11]]).wrapping_add(1);
+                            big[10..12].copy_from_slice(&ar.to_be_bytes());
+                            big.extend_from_slice(&[0, 0, 16, 0, 1, 0, 0, 0, 9]);
+                            big.extend_from_slice(&(6000u16).to_be_bytes());
+                            big.extend(std::iter::repeat(0u8).take(6000));
+                        }
+                        (big, 5000usize)
+                    };
+                    let mut wire = (announce as u16).to_be_bytes().to_vec();
+                    wire.extend_from_slice(&sent);
+                    let resp = server.tcp_once(&wire, true);
+                    out.case(
+                        &["server.tcp-short", "auth", &zones, &c::hex(&sent), &announce.to_string()],
+                        &resp.map_or("conn-failed".into(), |b| c::hex(&b)),
+                    );
+                }
                 2 => {
                     // TCP short read: prefix announces more than is sent, then FIN
                     let announce = q.len() + r.range(1, 20);
@@ -525,6 +610,31 @@ pub fn run_serve(r: &mut Rng, n: usize, out: &mut Out) {
                 }
             }
             done += 1;
+        }
+        // a burst: many datagrams back to back from one socket, then the replies are collected - every
+        // query gets exactly one (no reply is dropped because many are pending at once)
+        {
+            let nburst = 120usize;
+            if let Ok(sock) = UdpSocket::bind("127.0.0.1:0") {
+                let _ = sock.connect(server.addr);
+                let _ = sock.set_read_timeout(Some(Duration::from_millis(400)));
+                for i in 0..nburst {
+                    let _ = sock.send(&probe_query(20_000 + i as u16));
+                }
+                let mut seen = std::collections::HashMap::<u16, usize>::new();
+                let mut buf = [0u8; 2048];
+                let start = Instant::now();
+                while seen.values().sum::<usize>() < nburst && start.elapsed() < Duration::from_secs(5) {
+                    match sock.recv(&mut buf) {
+                        Ok(n) if n >= 2 => *seen.entry(u16::from_be_bytes([buf[0], buf[1]])).or_insert(0) += 1,
+                        Ok(_) => {}
+                        Err(_) => break,
+                    }
+                }
+                let dup = seen.values().filter(|&&c| c > 1).count();
+                out.case(&["server.burst", &nburst.to_string()], &format!("replies={} dup={}", seen.len(), dup));
+                done += 1;
+            }
         }
         // liveness after the batch
         let alive = server.alive() && server.udp_once(&probe_query(7), Duration::from_secs(2)).is_some();
@@ -756,7 +866,18 @@ pub fn run_config_load(r: &mut Rng, n: usize, out: &mut Out) {
                 continue;
             }
             let bad = r.chance(1, 15);
-            let content: Vec<u8> = if bad { b"$INCLUDE nope\n".to_vec() } else { text.into_bytes() };
+            let mut content: Vec<u8> = if bad { b"$INCLUDE nope\n".to_vec() } else { text.into_bytes() };
+            if !bad && r.chance(1, 30) {
+                // a big file: more than 2 MiB of comment lines in front of the records (what the file
+                // means does not change; everything up to its last octet has to be read)
+                let line = b"; generated ------------------------------------------------------------ padding\n";
+                let mut padded = Vec::with_capacity(2_300_000 + content.len());
+                while padded.len() < 2_200_000 {
+                    padded.extend_from_slice(line);
+                }
+                padded.extend_from_slice(&content);
+                content = padded;
+            }
             let body = if bad { "BAD".to_string() } else { gz.spec.clone() };
             match r.below(3) {
                 0 => {
@@ -990,6 +1111,24 @@ fn start_mock(port: u16, table: Option<Vec<(DomainName, Vec<ResourceRecord>)>>) 
                     }
                     None => resp.header.rcode = Rcode::NameError,
                 }
+                let first = question.name.labels.first().map(|l| l.octets().to_vec()).unwrap_or_default();
+                if first.starts_with(b"tiny") {
+                    // a one-octet datagram (garbage); the proper answer is available over TCP
+                    let _ = sock.send_to(&[0x12], peer);
+                    continue;
+                }
+                if first.starts_with(b"spoof") {
+                    // a STRANGER (another local address) answers first, with the right ID and question and a
+                    // poisoned address; the genuine reply follows.  A connected socket never sees the stranger.
+                    if let Ok(stranger) = UdpSocket::bind(("127.0.0.2", 0)) {
+                        let mut forged = resp.clone();
+                        forged.answers = vec![a_rr(&question.name, 66, 300)];
+                        if let Ok(fb) = forged.to_octets() {
+                            let _ = stranger.send_to(&fb, peer);
+                        }
+                    }
+                    std::thread::sleep(Duration::from_millis(40));
+                }
                 if let Ok(bytes) = resp.to_octets() {
                     // a datagram that ends inside the last record's RDATA (and does not say so with TC)
                     let n = if cut_udp { bytes.len().saturating_sub(4) } else { bytes.len() };
@@ -1035,7 +1174,12 @@ fn start_mock(port: u16, table: Option<Vec<(DomainName, Vec<ResourceRecord>)>>) 
                         // "big1…": the connection dies after the length prefix and ONE octet of the message
                         let cut = question.name.labels.first().map_or(false, |l| l.octets().starts_with(b"big1"));
                         let n = if cut { 3 } else { wire.len() };
-                        let _ = stream.write_all(&wire[..n]);
+                        // in two segments with a pause in between, as replies longer than one segment arrive
+                        let half = n / 2;
+                        let _ = stream.write_all(&wire[..half]);
+                        let _ = stream.flush();
+                        std::thread::sleep(Duration::from_millis(60));
+                        let _ = stream.write_all(&wire[half..n]);
                     }
                 }
             });
@@ -1093,6 +1237,10 @@ pub fn run_forward(r: &mut Rng, n: usize, out: &mut Out) {
         // a name whose answer is only available over TCP (the UDP reply is truncated)
         let big = fwd_name("big.ext.");
         table.push((big.clone(), vec![a_rr(&big, 99, 300)]));
+        let tiny = fwd_name("tiny.ext.");
+        table.push((tiny.clone(), vec![a_rr(&tiny, 96, 300)]));
+        let spoof = fwd_name("spoof.ext.");
+        table.push((spoof.clone(), vec![a_rr(&spoof, 95, 300)]));
         let big1 = fwd_name("big1.ext.");
         table.push((big1.clone(), vec![a_rr(&big1, 98, 300)]));
         let cutudp = fwd_name("cutudp.ext.");
@@ -1138,9 +1286,11 @@ pub fn run_forward(r: &mut Rng, n: usize, out: &mut Out) {
                 3 => (blocked.clone(), "hosts"),
                 4 => (alias.clone(), "ext-alias"),
                 5 => (fwd_name("nx.ext."), "ext-unknown"),
-                6 => match r.below(4) {
+                6 => match r.below(6) {
                     0 => (big1.clone(), "ext-tcp-cut"),
                     1 => (cutudp.clone(), "ext-udp-cut"),
+                    2 => (tiny.clone(), "ext-tiny"),
+                    3 => (spoof.clone(), "ext-spoof"),
                     _ => (big.clone(), "ext-tcp"),
                 },
                 _ => (r.pick(&names).clone(), "ext"),
@@ -1222,6 +1372,22 @@ pub fn run_forward(r: &mut Rng, n: usize, out: &mut Out) {
                                 let real = if kind == "ext-udp-cut" { want(97) } else { want(98) };
                                 if !m.answers.is_empty() && !(kind == "ext-udp-cut" && addrs == real && m.answers.len() == 1) {
                                     v.push("fail:C08:record-from-nowhere".into());
+                                }
+                            } else if rd && kind == "ext-tiny" {
+                                // garbage over UDP, the answer over TCP: it is what the client gets (and no panic)
+                                if addrs != want(96) {
+                                    v.push("fail:C08:answer-after-garbage-datagram-not-returned".into());
+                                } else if !answered.contains(&qname) {
+                                    answered.push(qname.clone());
+                                }
+                            } else if rd && kind == "ext-spoof" {
+                                // only what the forwarder itself sent may come back
+                                if addrs == want(66) {
+                                    v.push("fail:C08:record-from-a-stranger-returned".into());
+                                } else if addrs != want(95) {
+                                    v.push("fail:C18:forwarders-answer-not-returned".into());
+                                } else if !answered.contains(&qname) {
+                                    answered.push(qname.clone());
                                 }
                             } else if rd && kind == "ext-tcp" {
                                 // truncated over UDP: the retry over TCP must reach the same forwarder, and its
@@ -1307,7 +1473,44 @@ pub fn run_reload_live(r: &mut Rng, n: usize, out: &mut Out) {
         let zone_text = |last: u8| format!("$ORIGIN storm.test.\n@ IN SOA ns admin 1 2 3 4 60\nwww 300 IN A 10.0.0.{last}\n");
         let mut cur = 1 + r.below(40) as u8;
         std::fs::write(zdir.join("a.zone"), zone_text(cur)).unwrap();
-        if i % 2 == 0 {
+        if i % 3 == 2 {
+            // ---- relink: the configured directory is reached through a symbolic link (`current ->
+            // releases/1`) which is re-pointed between two reloads - the paths as GIVEN are what is re-read
+            let rel = |k: u8| dir.join(format!("releases/{k}/zones"));
+            let (v1, v2) = (cur, cur.wrapping_add(41) % 250 + 1);
+            for (k, v) in [(1u8, v1), (2u8, v2)] {
+                std::fs::create_dir_all(rel(k)).unwrap();
+                std::fs::write(rel(k).join("a.zone"), zone_text(v)).unwrap();
+            }
+            let current = dir.join("current");
+            let _ = std::os::unix::fs::symlink(dir.join("releases/1"), &current);
+            let args: Vec<String> = vec!["--authoritative-only".into(), "-Z".into(), current.join("zones").to_string_lossy().into_owned()];
+            let Some(server) = Server::start(&args) else {
+                out.case(&["server.start", "reload-live"], "failed");
+                continue;
+            };
+            let before = www_addr(&server, 1, 2000, "www.storm.test.");
+            // re-point the link atomically (new link + rename), remove the old release, reload
+            let tmp = dir.join("current.new");
+            let _ = std::os::unix::fs::symlink(dir.join("releases/2"), &tmp);
+            let _ = std::fs::rename(&tmp, &current);
+            let _ = std::fs::remove_dir_all(dir.join("releases/1"));
+            let from = server.log_len();
+            server.sigusr1();
+            let ok = server.wait_reload(from);
+            let fin = www_addr(&server, 2, 2000, "www.storm.test.");
+            let mut verdicts: Vec<String> = Vec::new();
+            if before != v1.to_string() {
+                verdicts.push("fail:C19:initial-configuration-not-served".into());
+            }
+            if ok != Some(true) {
+                verdicts.push("fail:C19:valid-configuration-not-loaded".into());
+            }
+            if fin != v2.to_string() {
+                verdicts.push("fail:C19:later-answers-do-not-reflect-the-new-files".into());
+            }
+            out.case(&["server.reload-live", "relink"], &format!("{} final={fin}", if verdicts.is_empty() { "ok".to_string() } else { verdicts.join(",") }));
+        } else if i % 3 == 0 {
             // ---- storm
             let mut hosts = String::new();
             for k in 0..60_000u32 {
